@@ -3031,6 +3031,12 @@ func (l *channelLink) processRemoteAdds(fwdPkg *channeldb.FwdPkg) {
 	// settle/fail update.
 	unackedAdds := make([]*lnwire.UpdateAddHTLC, 0, len(fwdPkg.Adds))
 
+	// unackedAddIdxs holds, for every entry of unackedAdds, the index of
+	// that ADD within the forwarding package. The two differ as soon as
+	// an already acked ADD has been skipped, and the forwarding package's
+	// filters and source references are keyed by the latter.
+	unackedAddIdxs := make([]uint16, 0, len(fwdPkg.Adds))
+
 	for i, update := range fwdPkg.Adds {
 		// If this index is already found in the ack filter, the
 		// response to this forwarding decision has already been
@@ -3060,6 +3066,7 @@ func (l *channelLink) processRemoteAdds(fwdPkg *channeldb.FwdPkg) {
 
 			decodeReqs = append(decodeReqs, req)
 			unackedAdds = append(unackedAdds, msg)
+			unackedAddIdxs = append(unackedAddIdxs, uint16(i))
 		}
 	}
 
@@ -3083,7 +3090,7 @@ func (l *channelLink) processRemoteAdds(fwdPkg *channeldb.FwdPkg) {
 	var switchPackets []*htlcPacket
 
 	for i, update := range unackedAdds {
-		idx := uint16(i)
+		idx := unackedAddIdxs[i]
 		sourceRef := fwdPkg.SourceRef(idx)
 		add := *update
 
